@@ -24,7 +24,8 @@ type gen struct {
 	thorough     bool
 	shared       int // number of shared values of the plan (shared.go)
 	sharedPtr    []bool
-	typeStorm    bool // many operands of many distinct Go types (per-type caches fill and turn over)
+	sharedArgs   []bool // the shared value is a whole argument list
+	typeStorm    bool   // many operands of many distinct Go types (per-type caches fill and turn over)
 }
 
 var basePieces = []string{
@@ -181,7 +182,7 @@ func (g *gen) val(depth int, top bool) Val {
 		}
 	}
 	if g.shared > 0 && g.chance(0.1) {
-		if i := g.r.Intn(g.shared); top || !g.sharedPtr[i] {
+		if i := g.r.Intn(g.shared); (top || !g.sharedPtr[i]) && !g.sharedArgs[i] {
 			return Val{K: "shared", I: int64(i)}
 		}
 	}
@@ -690,6 +691,10 @@ func generate(prop string, seed int64, tier string) *Plan {
 		g.shared = 1 + g.r.Intn(3)
 		for i := 0; i < g.shared; i++ {
 			sp := g.sharedSpec()
+			if g.chance(0.25) {
+				sp = g.argsSpec()
+			}
+			g.sharedArgs = append(g.sharedArgs, sp.K == "argslist")
 			p.Shared = append(p.Shared, sp)
 			// pointers print as addresses anywhere but in direct operands
 			g.sharedPtr = append(g.sharedPtr, ((sp.K == "sbval" || sp.K == "mbval") && len(sp.V) > 0) || (sp.K == "subbytes" && sp.I == 4))
